@@ -38,4 +38,31 @@ PROPS = {
                    "independent model; thousands of distinct non-trivial histories per run, shrunk replay files on failure. No exhaustiveness is claimed.",
         level_note="Trusted: the reference model (internal/model), dragonboat's apply contract as emulated by the harness, pebble on MemFS.",
     ),
+    "C02": dict(
+        pkg="c02", level="exploration",
+        tests=[T("TestC02", Q(2500), Q(12000, timeout=900, shards=12, shrinktime="60s")),
+               T("TestC02Atomic", Q(1500), Q(6000, timeout=900, shards=4, shrinktime="60s"))],
+        rule="TestC02: rapid histories dominated by TXN commands (0-3 predicates EQUAL/GREATER/LESS/NOT_EQUAL/existence on single keys and ranges, 0-4 ops per branch mixing "
+             "range reads, puts, (range) deletes on overlapping keys) placed anywhere in apply batches of 1-4 entries, plus read-only transactions through Lookup which are "
+             "additionally compared with the same ops issued individually and with the same txn sent through the log (metamorphic). Non-trivial iff some txn had >=1 predicate and "
+             ">=2 ops in the executed branch and touched a key written earlier in the same txn/batch. TestC02Atomic: stamp commands rewrite a key group together while 1-4 reader goroutines "
+             "range-read the group; non-trivial iff readers observed >=2 distinct stamps. Distinct = sha256 of the case JSON.",
+        assumptions=FSM_ASSUME + ["atomic-visibility readers run on real goroutines: the oracle is timing-free, only coverage depends on scheduling"],
+        technique="stateful property-based testing against a transaction model + metamorphic relations + concurrent readers",
+        level_text="Randomised exploration: transaction semantics compared with an independent evaluator on thousands of histories; read-only txn path cross-checked "
+                   "metamorphically; atomic visibility probed with concurrent readers. Crash atomicity is C04's job.",
+        level_note="Trusted: internal/model transaction evaluator; scheduling of reader goroutines is not controlled.",
+    ),
+    "C03": dict(
+        pkg="c03", level="exploration",
+        tests=[T("TestC03", Q(1200), Q(6000, timeout=900, shards=16, shrinktime="60s"))],
+        rule="rapid generates one log (2-40 entries, quick; commands of every type, each with or without leader_index) and two independent partitions of it into Update calls "
+             "(1-7 entries each) interleaved with reopen / sync / snapshot-save + recover-into-a-fresh-replica events (saver and receiver format drawn independently). "
+             "Oracle: per-entry results byte-identical between the two replicas, equal content, applied index, leader index and store hash, all equal to the model. "
+             "Non-trivial iff the partitions differ AND some Update call mixes entries with and without leader_index AND >=1 snapshot transfer happened. Distinct = sha256 of case JSON.",
+        assumptions=FSM_ASSUME + ["both replicas run in one process on separate in-memory file systems"],
+        technique="differential / metamorphic property-based testing (same log, two generated schedules) plus model comparison",
+        level_text="Randomised exploration of (log, partition A, partition B) triples; the implementation is compared with itself under a different batching/restart/snapshot schedule and with the model.",
+        level_note="Trusted: internal/model; raft is replaced by direct Update calls that follow dragonboat's contract.",
+    ),
 }
